@@ -17,6 +17,9 @@ REG = {
  "C04": dict(cat="exploration", technique="runtime monitoring: parser output compared with the generating derivation (reference by construction), exhaustive operator shapes",
    text="parser::parse(lexer::lex(text)) is dumped with absolute token ranges and compared node by node (kind, operator, literal value, identifier, is_ref, doc strings, token range) with the derivation the generator built the text from, under three layouts per program including a comment in every token gap; all 6 092 operator shapes (2-4 operands, all + - * / combinations, every parenthesised sub-range, unary minus, one comparison per slot) and dangling-else chains are enumerated completely; any syntax diagnostic is a violation.",
    note="Trusted: the generator's productions as the SPL grammar; the node-range rule stated in the property (node = its tokens + directly preceding comments; comments before a declaration are doc).", ref="5/C04"),
+ "C05": dict(cat="exploration", technique="runtime monitoring: before/after differential oracle on sub-trees and table entries + extent monitor for syntax diagnostics under single-token damage",
+   text="For generated valid programs with 2-8 global declarations, one token of one declaration is deleted, or a token of the SPL alphabet (without proc/type) is inserted/substituted; the real analysis of the damaged text is compared with the undamaged run: every other declaration's sub-tree (ranges relative to its first token, doc strings included) and table entry must be unchanged, every lex/parse-class diagnostic must lie inside the damaged declaration's extent, and hover on the other declarations' names must still answer (sampled over LSP).",
+   note="Trusted: extents come from the generator; replacement identifiers are fresh (no redeclaration interactions); semantic diagnostics elsewhere are unconstrained, as the property says.", ref="5/C05"),
 }
 NOT_YET = "check not yet built in this session (work in progress; see DESIGN.md section 5 for the planned monitor)"
 
